@@ -225,8 +225,8 @@ func init() {
 			}
 			for d := 1; d <= depth; d++ {
 				rec([]string{"W"}, d)
+				rec([]string{"A"}, d)
 			}
-			rec([]string{"A"}, 3)
 			for i := 0; i < n; i++ {
 				c := "W"
 				if r.Intn(2) == 0 {
